@@ -21,6 +21,7 @@ pub fn scenario(tier: &str) -> (Life, Bounds) {
         big: false,
         tick_faults: false,
         bystander: false,
+        extensions: true,
     };
     let b = if th {
         Bounds { max_depth: 400, wall_cap_s: 1500.0, ..Default::default() }
